@@ -687,7 +687,9 @@ func (e *execState) runBlock(bi int, blk *Block, prev *Snap) (*blockObs, bool) {
 	}
 	// the enumeration forks one scratch replica per injected call (~80 ms each): it is applied to every
 	// third schedule so that the fault-free half of C07 keeps its breadth
-	if e.opt.BankFailEnum && (e.opt.EnumAll || uint64(e.s.Seed)%3 == 0) && res.Stats.Probes["enum_blocks"] < maxInt(e.opt.MaxEnumBlocks, 1) {
+	// (not in the sprawl profile: forking a replica that holds more than a hundred auctions once per bank call
+	// of a begin block costs more than the whole history)
+	if e.opt.BankFailEnum && (e.opt.EnumAll || (uint64(e.s.Seed)%3 == 0 && e.s.Cfg.Profile != "sprawl")) && res.Stats.Probes["enum_blocks"] < maxInt(e.opt.MaxEnumBlocks, 1) {
 		e.enumBankFail(bi, blk, txBytes, prev)
 	}
 	if faultOf(blk, FDiscarded) != nil {
